@@ -338,6 +338,45 @@ def evaluate(case, native):
             if r['estimate_activity'] != 0:
                 return True, f"{name}: activity-level estimate {r['estimate_activity']} (expected 0: the objective does not depend on the position)"
         return False, 'estimates equal the objective changes'
+    if kind == 'insertion_e2e':
+        tasks = case['tasks']
+        cap = case.get('capacity')
+
+        def feasible(lst):
+            arr, _, ok, _, _, _ = simulate(case, lst)
+            if cap is not None:
+                _, _, peak = load_profile(case, lst)
+                if peak > cap:
+                    return False, f'load peaks at {peak} > capacity {cap}'
+            return ok, f'arrivals {arr}'
+        pre_ok, _ = feasible(jobs)
+        if not pre_ok:
+            return False, 'pre-tour infeasible in the model (assumption violated): not a counterexample'
+        if native.get('success'):
+            placed = native['activities']
+            if len(placed) != len(tasks):
+                return True, f'success with {len(placed)} activities for a job with {len(tasks)} tasks'
+            lst = list(jobs)
+            last = -1
+            for t, a in zip(tasks, placed):
+                idx = a['index']
+                if idx <= last and last >= 0:
+                    return True, f'tasks returned out of order: leg indices {[x["index"] for x in placed]}'
+                if a['loc'] != t['loc']:
+                    return True, f'tasks returned in a different order than the job defines: {[x["loc"] for x in placed]}'
+                lst.insert(idx, t)
+                last = idx
+            ok, why_not = feasible(lst)
+            if not ok:
+                return True, (f'evaluator returned Success with tasks at legs {[x["index"] for x in placed]}, but the resulting tour '
+                              f'{[j["loc"] for j in lst]} is infeasible in simulation ({why_not})')
+            return False, 'returned positions are feasible in simulation'
+        if len(tasks) == 1:
+            for p in range(len(jobs) + 1):
+                ok, _ = feasible(jobs[:p] + [tasks[0]] + jobs[p:])
+                if ok:
+                    return True, f'evaluator returned Failure although inserting the job at leg {p} is feasible in simulation'
+        return False, 'failure is consistent with the simulation (multi-task failure may be incomplete by design)'
     if kind == 'route_gates':
         tws = case['route_job']['tws']
         s0, s1 = val(case['shift_start']), val(case['shift_end'])
